@@ -41,7 +41,8 @@ D_URL = {"name": "u", "version": "0.1.5", "source": {"href": "https://cdn.exampl
 HC_TAG = ["HC", [E("title", True, [T("Tt")])]]
 HC_TXT = ["HC", [T("plain & text")]]
 ITEMS = [T("txt"), B([T("b")]), I([T("i")]), ["DI", D_A1], ["DI", D_A2], ["DI", D_URL], HC_TAG, HC_TXT,
-         B([["DI", D_A1], I([["DI", D_URL], T("n")])]), ["X", B([T("xb"), ["DI", D_A2]])]]
+         B([["DI", D_A1], I([["DI", D_URL], T("n")])]), ["X", B([T("xb"), ["DI", D_A2]])],
+         E("img", False, [["DI", D_URL]], [["src", "i.png"]])]
 HEADKIDS = [E("title", True, [T("user title")]), ["DI", D_A2], E("link", True, [], [["rel", "x"]]), HC_TAG,
             E("meta", True, [], [["charset", "iso-8859-1"]])]
 ATTRS = [[], [["lang", "en"]], [["class_", "k"]]]
@@ -206,6 +207,18 @@ def fn(case):
     objs = [build(c) for c in content]
     if mode == "ctor":
         doc = HTMLDocument(*objs, **kw)
+    elif mode == "taglist-shared":
+        # the content is handed over as ONE TagList which is also used for a second document that is
+        # appended to: the first document must not see what the second one received
+        from htmltools import TagList, Tag
+        tl = TagList(*objs)
+        n0 = len(tl)
+        doc = HTMLDocument(tl, **kw)
+        other = HTMLDocument(tl)
+        other.append(Tag("p", "other-doc"), build(["DI", D_URL]))
+        other.render()
+        if len(tl) != n0:
+            viols.append(("document:aliases-content", "appending to a document changed the TagList it was built from", {}))
     elif mode == "append":
         doc = HTMLDocument(**kw)
         for o in objs:
@@ -270,7 +283,7 @@ def plan(tier):
     htmlv = html_variants(items)
     content = Alt(frag, body, htmlv)
     if tier == "quick":
-        cfg = Prod(Const(["ctor", "append", "render-append-render", "render-empty-then-append"]), Const(ATTRS[:2]),
+        cfg = Prod(Const(["ctor", "append", "render-append-render", "render-empty-then-append", "taglist-shared"]), Const(ATTRS[:2]),
                    Const(["lib", None]), Const([True]))
         cfg2 = Prod(Const(["ctor"]), Const(ATTRS[:2]), Const(PREFIXES), Const([True, False]))
         small = Alt(Seq(items, 0, 1), Map(Seq(items, 0, 1), lambda ks: [["E", "body", True, [], ks]]),
@@ -283,7 +296,7 @@ def plan(tier):
                  space=Map(Prod(small, cfg2), lambda c: (c[0],) + tuple(c[1])),
                  note=f"{small.size} small contents x all lib_prefix x include_version"),
         ]
-    cfg = Prod(Const(["ctor", "append", "ctor+append", "render-append-render", "render-empty-then-append"]),
+    cfg = Prod(Const(["ctor", "append", "ctor+append", "render-append-render", "render-empty-then-append", "taglist-shared"]),
                Const(ATTRS), Const(PREFIXES), Const([True, False]))
     return [dict(kind="space", name="contents-x-all-configs", fn=fn,
                  space=Map(Prod(content, cfg), lambda c: (c[0],) + tuple(c[1])),
